@@ -179,7 +179,13 @@ func Harness_C06_activate_race() {
 	if succ == 0 {
 		verif_Assert("C06.race.failed_leaves_nothing", len(w.maps.m) == 0)
 	}
-	_ = e3
+	if withRevoke && e3 == nil {
+		// the revocation was acknowledged: the code is revoked for good - no activation racing it
+		// may have turned it into a mapping (an activation that got there first makes the
+		// revocation fail instead)
+		verif_Assert("C06.race.revoked_code_creates_no_mapping", succ == 0 && len(w.maps.m) == 0)
+		verif_Cover("C06.race.revoked")
+	}
 	verif_Cover("C06.race.done")
 }
 
